@@ -1051,7 +1051,7 @@ func ColumnDefault(c *schema.Column) (cty.Value, error) {
 		return schemahcl.RawExprValue(&schemahcl.RawExpr{X: x.X}), nil
 	case *schema.Literal:
 		switch {
-		case oneOfPrefix(x.V, "0x", "0X", "0b", "0B", "b'", "B'", "x'", "X'"):
+		case !textlike && oneOfPrefix(x.V, "0x", "0X", "0b", "0B", "b'", "B'", "x'", "X'"):
 			return schemahcl.RawExprValue(&schemahcl.RawExpr{X: x.V}), nil
 		case sqlx.IsQuoted(x.V, '\'', '"'):
 			// Normalize single quotes to double quotes.
@@ -1060,7 +1060,7 @@ func ColumnDefault(c *schema.Column) (cty.Value, error) {
 				return cty.NilVal, err
 			}
 			return cty.StringVal(s), nil
-		case strings.ToLower(x.V) == "true", strings.ToLower(x.V) == "false":
+		case !textlike && (strings.ToLower(x.V) == "true" || strings.ToLower(x.V) == "false"):
 			return cty.BoolVal(strings.ToLower(x.V) == "true"), nil
 		case sqlx.IsLiteralNumber(x.V) && !textlike:
 			// Numbers that are not written as plain integers or decimals (e.g. 1e5),
